@@ -188,6 +188,10 @@ def gen_actions(rng, n):
             kind, data = "valid", base["data"]
         else:
             kind, data = c05_gen.random_mutant(rng, base)
+        try:
+            c05_gen.classify(data, "eof", not shake, [base])
+        except c05_gen.Unsafe:
+            kind, data = "prefix", base["data"][:rng.randrange(len(base["data"]))]
         acts.append({"shake": shake, "ser": ser, "hex": common.hx(data), "close": rng.choice(["now", "now", "drain"]), "kind": kind})
     return acts
 
